@@ -1549,9 +1549,14 @@ class Crystal(object):
         Gmin = min(np.dot(G, G) for G in self.BZG)
         for k in kptfull:
             if np.dot(k, k) >= Gmin:
-                for G in self.BZG:
-                    if np.dot(k, G) > np.dot(G, G):
-                        k -= 2. * G
+                # one pass over the zone vectors may leave k outside another face: repeat until no fold
+                for npass in range(len(self.BZG)):
+                    folded = False
+                    for G in self.BZG:
+                        if np.dot(k, G) > np.dot(G, G):
+                            k -= 2. * G
+                            folded = True
+                    if not folded: break
         return kptfull
 
     def reducekptmesh(self, kptfull, threshold=None):
